@@ -1,0 +1,7 @@
+//go:build verif
+
+package repl
+
+// MultiLineForVerif exposes the REPL's continuation test (multiLine) to the
+// verification harness. Compiled only with the "verif" build tag.
+func MultiLineForVerif(err error) bool { return multiLine(err) }
